@@ -1,4 +1,6 @@
 """C02 — B-tree positional queries: lower_bound, find, remove-next, increment (src/btree.c)."""
+import sys
+
 import vlib
 from props import btreelib as bt
 
@@ -12,23 +14,37 @@ ASSUMPTIONS = [
     "search comparators are compatible with the tree order (monotone along it); the wildcard used by the driver "
     "matches all keys with the same key/16",
     "remove's next is compared as the element it dereferences to (spec) and as (level, index path) (model)",
-    "iterator indexes are uint16_t: configurations with LEAF_VALS >= 65536 are outside the model",
+    "iterator indexes are uint16_t: every configuration the sources accept has LEAF_VALS <= 65535 (static assertion, fix 627c158; "
+    "the check verifies that page size 1048576 is rejected at compile time), so by iter_indexes_fit_uint16 no index is truncated",
 ]
 
 
 def build(ctx):
-    ctx.bt_huge = True
     bt.build(ctx)
-    # known finding outside the modelled configurations: replay its witness on the implementation
-    for f in ctx.findings:
-        if f["id"] == "C02-ITER-UINT16":
-            bad, detail = bt.uint16_witness(ctx)
-            if bad:
-                ctx.known_line(f["id"], f["what"])
-                ctx.known_hits.setdefault(f["id"], 0)
-                ctx.notes.append("C02-ITER-UINT16 witness: " + detail)
-            else:
-                ctx.notes.append("known finding C02-ITER-UINT16 no longer reproduces: " + detail)
+    # fixed 627c158: a configuration whose LEAF_VALS does not fit the uint16_t iterator indexes must not compile;
+    # should it compile again, the old witness is run on the implementation and a wrong dereference is a violation
+    ok, detail, impl_line = bt.huge_page_check(ctx)
+    ctx.notes.append("uint16 iterator indexes: " + detail)
+    ctx.coverage["huge_page_rejected"] = impl_line is None
+    if not ok:
+        ctx.report_violation({"case": "%d - i1.1 .. i%d.%d f%d   (ascending inserts, then find; implementation only)"
+                                      % (bt.HUGE_PAGE, bt.UINT16_N, bt.UINT16_N, bt.UINT16_PROBE),
+                              "uint16_witness": True,
+                              "impl": (impl_line or "").split(" || ")[0][-300:],
+                              "spec": "f:SUCCESS:%d" % bt.UINT16_PROBE,
+                              "what": "iterator indexes are uint16_t but the sources accept a page size with LEAF_VALS > 65535: "
+                                      "zix_btree_find returns an iterator that dereferences to the wrong element. " + detail})
+
+
+def replay(ctx, path):
+    import json
+    r = json.load(open(path))
+    if r.get("uint16_witness"):
+        ok, detail, _ = bt.huge_page_check(ctx)
+        print(detail)
+        print("spec holds on impl: %s" % ok)
+        return 0 if ok else 1
+    return vlib.replay(ctx, sys.modules[__name__], path)
 
 
 def corpus(ctx):
